@@ -1204,6 +1204,12 @@ class OP4:
                 Format string for numbers, eg: '%16.9E'.
         """
         numlen = digits + 5 + self._expdigits  # -1.digitsE-009
+        # 3-digit exponents need one more character (for the sign):
+        vals = matrix[3] if isinstance(matrix, tuple) else matrix
+        vals = vals.data if sp.issparse(vals) else np.asarray(vals)
+        vals = np.abs(np.hstack((vals.real.ravel(), vals.imag.ravel())))
+        if ((vals >= 1e100) | ((vals < 1e-99) & (vals > 0.0))).any():
+            numlen += 1
         perline = 80 // numlen
 
         (rows, cols, form, mtype, multiplier, int_width) = OP4._get_header_info(
